@@ -29,7 +29,7 @@ func updateMapAppendFunc(t *tType) {
 	}
 
 	f, ok := mapAppendFuncs[struct{ k, v ttype }{k: t.K.T, v: t.V.T}]
-	if ok {
+	if ok && !isBinary(t.V) { // the *_STRING fast paths range the map as map[K]string: []byte values have a different layout
 		t.AppendFunc = f
 		return
 	}
